@@ -61,9 +61,14 @@ func (a *abyss) DeliveryUserMessage(receiver, sender, forward *prc.ProcessId, me
 }
 
 func (a *abyss) DeliverySystemMessage(receiver, sender, forward *prc.ProcessId, message prc.Message) {
-	switch message.(type) {
+	// the message arrives wrapped (prc.WrapMessage): look at its content
+	content := message
+	if w, ok := message.(*prc.MessageWrapper); ok {
+		content = w.Message
+	}
+	switch content.(type) {
 	case *messages.Watch:
-		a.system.rc.GetProcess(sender).DeliverySystemMessage(sender, receiver, nil, &messages.Terminated{TerminatedProcess: receiver})
+		a.system.rc.GetProcess(sender).DeliverySystemMessage(sender, receiver, nil, prc.WrapMessage(receiver, sender, &messages.Terminated{TerminatedProcess: receiver}))
 	default:
 		a.system.Logger().Error("ActorSystem", log.String("info", "system abyss"), log.String("sender", sender.URL().String()), log.String("receiver", receiver.URL().String()), log.Any("message", message))
 	}
